@@ -258,6 +258,11 @@ func (x *Exec) havocLoop(st *State, fn *ssa.Function, l *Loop, lc *LoopContract)
 			return nil
 		}
 	}
+	type mapRow struct {
+		alloc  *ssa.Alloc
+		ks, vs string
+	}
+	var mapRows []mapRow
 	allHeap := false
 	hasGo, hasSend, hasMayPanic := false, false, false
 	unknownCall := false // a call through a function value: may reach any logged callee
@@ -365,6 +370,14 @@ func (x *Exec) havocLoop(st *State, fn *ssa.Function, l *Loop, lc *LoopContract)
 					ev(heapAllocRoot(ins.Addr), func() { noteStore(ins.Addr) })
 				case *ssa.MapUpdate:
 					ks, vs, _ := x.mapSorts(ins.Map.Type())
+					// a map held in a local of this frame that the loop never assigns is the same map in every
+					// iteration: only its row is havocked (decided once the assigned cells are known)
+					if ld, ok := ins.Map.(*ssa.UnOp); ok && ld.Op == token.MUL && f == fn {
+						if a, ok := ld.X.(*ssa.Alloc); ok && !a.Heap && a.Parent() == fr.Fn {
+							mapRows = append(mapRows, mapRow{a, ks, vs})
+							continue
+						}
+					}
 					x.noteMap(arrays, ks, vs)
 				case *ssa.MakeClosure:
 					cf := ins.Fn.(*ssa.Function)
@@ -447,6 +460,16 @@ func (x *Exec) havocLoop(st *State, fn *ssa.Function, l *Loop, lc *LoopContract)
 		}
 	}
 	scanBlocks(fn, fn.Blocks, func(b *ssa.BasicBlock) bool { return l.Body[b] })
+	preciseRows := map[string][]string{} // map array -> rows (map references) to havoc
+	for _, mr := range mapRows {
+		lv, ok := fr.Locals[mr.alloc]
+		if cells[mr.alloc] || !ok || lv.Term == "" {
+			x.noteMap(direct, mr.ks, mr.vs)
+			continue
+		}
+		preciseRows[x.TM.MapHas(mr.ks, mr.vs)+"|"+fmt.Sprintf("(Array %s Bool)", mr.ks)] = append(preciseRows[x.TM.MapHas(mr.ks, mr.vs)+"|"+fmt.Sprintf("(Array %s Bool)", mr.ks)], lv.Term)
+		preciseRows[x.TM.MapVal(mr.ks, mr.vs)+"|"+fmt.Sprintf("(Array %s %s)", mr.ks, mr.vs)] = append(preciseRows[x.TM.MapVal(mr.ks, mr.vs)+"|"+fmt.Sprintf("(Array %s %s)", mr.ks, mr.vs)], lv.Term)
+	}
 	arrays = map[string]string{}
 	for k, v := range direct {
 		arrays[k] = v
@@ -520,6 +543,22 @@ func (x *Exec) havocLoop(st *State, fn *ssa.Function, l *Loop, lc *LoopContract)
 		}
 		// make sure the base constant exists (so that later lookups find the sort), then havoc
 		st.Heap[n] = x.D.Fresh("hl."+n, srt)
+	}
+	for _, key := range sortedKeys(preciseRows) {
+		i := strings.Index(key, "|")
+		n, rowSort := key[:i], key[i+1:]
+		if _, whole := arrays[n]; whole || allHeap {
+			continue // already havocked as a whole
+		}
+		cur := x.heapArr(st, n, SInt, rowSort)
+		done := map[string]bool{}
+		for _, ref := range preciseRows[key] {
+			if !done[ref] {
+				done[ref] = true
+				cur = Store(cur, ref, x.D.Fresh("hrow", rowSort))
+			}
+		}
+		st.Heap[n] = cur
 	}
 	// allocation counter
 	nb := x.D.Fresh("A", SInt)
